@@ -61,6 +61,64 @@ def _fold_puts_later_left(f: Optional[ast.AST]) -> Optional[bool]:
     return None
 
 
+def grouped_folds(prog: Program, chk: Check, rule: str) -> int:
+    """itertools.groupby only merges *consecutive* items with equal keys: grouping the stacked
+    controls of a step by site needs the sequence sorted by that key (stably, so that the
+    insertion order within a site survives) - on the insertion-ordered list a control for
+    another site in between splits a site's controls into two groups and the later group
+    replaces the earlier one."""
+    n = 0
+    for u in prog.units_in("control"):
+        if isinstance(u.node, ast.Lambda):
+            continue
+        du = None
+        for c in walk_local(u.node):
+            if not (isinstance(c, ast.Call) and (dotted(c.func) or "").split(".")[-1] == "groupby"
+                    and c.args):
+                continue
+            n += 1
+            if du is None:
+                du = DefUse(u, CFG(u.node, exc_edges=False))
+            seq = c.args[0]
+            key = next((k.value for k in c.keywords if k.arg == "key"),
+                       c.args[1] if len(c.args) > 1 else None)
+            nid = du.node_of(c)
+            cands = [seq]
+            if isinstance(seq, ast.Name) and nid is not None:
+                cands = [d.value for d in du.reaching(nid, seq.id) if d.value is not None]
+
+            def key_text(k):
+                return norm(k.body) if isinstance(k, ast.Lambda) else (norm(k) if k is not None else "")
+
+            def sorted_by_key(e):
+                if isinstance(e, ast.Call) and (dotted(e.func) or "") == "sorted":
+                    k2 = next((k.value for k in e.keywords if k.arg == "key"), None)
+                    if key is None and k2 is None:
+                        return True
+                    if isinstance(key, ast.Lambda) and isinstance(k2, ast.Lambda):
+                        # same body up to the parameter name
+                        import copy
+                        a, b = copy.deepcopy(key), copy.deepcopy(k2)
+                        for lam in (a, b):
+                            pn = lam.args.args[0].arg
+                            for x in ast.walk(lam.body):
+                                if isinstance(x, ast.Name) and x.id == pn:
+                                    x.id = "_"
+                        return norm(a.body) == norm(b.body)
+                    return key_text(key) == key_text(k2)
+                return False
+            ok = bool(cands) and all(sorted_by_key(e) for e in cands)
+            chk.saw(u)
+            chk.add(rule, u, f"groupby({norm(seq)[:30]}, key={key_text(key)[:30]})", ok,
+                    "the sequence is sorted by the grouping key (sorted() is stable: insertion "
+                    "order within a group survives)" if ok else
+                    "groupby merges consecutive items only and the sequence is not sorted by the "
+                    "grouping key: stacked controls of one slot that are separated by a control "
+                    "for another slot fall into two groups, and the later group replaces the "
+                    "earlier one instead of being composed with it", c)
+    return n
+
+
 def stacking_folds(prog: Program, chk: Check, rule: str, classes: Optional[Set[str]] = None) -> int:
     """Controls kept as a list per slot and folded when they are read: the product must have
     the operation added later on the left.  Returns the number of folds judged."""
@@ -128,6 +186,7 @@ def o1(prog: Program, chk: Check) -> None:
              "addition on the left", floor=9)
     mod = prog.module("control")
     stacking_folds(prog, chk, "O1")
+    grouped_folds(prog, chk, "O1")
     accumulation_order(prog, chk, "O1")
     # insertion-order iteration of the chain control lists
     cc = prog.cls("control:ChainControl")
